@@ -2,9 +2,58 @@ SPEC = {
     "props": "Props/C11.v",
     "check_vo": ["Model/FsmCheck.vo"],
     "driver": "c11",
+    "driver_timeout": 2400,
     "component": "pppoe.LCPStateMachine/IPCPStateMachine/IPV6CPStateMachine",
-    "clauses": {0: "opened-only-on-mutual-ack", 1: "leaves-opened on renegotiation/terminate/down",
-                2: "reply echoes the request's identifier", 3: "ack repeats options; nak/reject list only offending options",
-                4: "IPCP acknowledges only the assigned address", 5: "silent peer: at most the configured number of requests",
+    "clauses": {0: "opened-only-on-mutual-ack: Opened => we acked the peer's latest Configure-Request and the peer acked ours",
+                1: "leaves-opened: renegotiation / terminate / Down / Close leave Opened",
+                2: "reply echoes the request's identifier",
+                3: "ack repeats the request's options; nak/reject list only offending options",
+                4: "IPCP acknowledges only the address assigned to the session",
+                5: "silent peer: at most the configured number of requests in a run of timer expiries",
                 6: "always terminates: a retransmitting state has a running restart timer"},
+    "rule": "a case = one real automaton (LCP, IPCP or IPv6CP; random configuration incl. MaxConfigure/MaxRetransmit <= 0, "
+            "PeerIP set/unset, crypto/rand replaced by the case's byte stream) driven by an event sequence "
+            "(Up/Down/Open/Close/ReceivePacket bytes/SendEchoRequest/timer expiry fresh or stale via VerifTimeout); after every "
+            "event the packets sent and a snapshot (state, restartCount, identifier, lastIdentifier, timer set, local option "
+            "state) are compared with the Model and judged by the monitor. Streams: bfs = breadth-first over abstract "
+            "fingerprints of the implementation (state, timer set, fresh/stale expiry available, restartCount class, ack "
+            "bits) x 32 event kinds, one case per edge; random = sequences to depth 8 (thorough 24); silent = Open+Up, "
+            "0-3 packets, then only expiries; live = the same generators with the always-terminates clause switched on. "
+            "distinct = distinct Coq case terms",
+    "assumptions": [
+        "timer expiry is delivered by calling timeout() through the verif hook (RestartTimer = 1h, never fires by itself): "
+        "the scheduling of time.AfterFunc goroutines is modelled by explicit EFire tokens, not executed",
+        "crypto/rand never fails (generateMagicNumber / generateInterfaceID error branches are not modelled)",
+        "IPCPConfig.IPPool = nil (pool allocation in Up/Down is C01/C05's subject); addresses are IPv4",
+        "LCP negotiated.Peer*/AuthProtocol/CHAPAlgorithm and failureCount are written but never read by the automaton and are not observed",
+        "NCP copies ignore Code-Reject/Protocol-Reject (RFC 1661 RXJ-); the property text does not name them, T2 covers them for LCP only",
+        "identifier is 8 bit: an Ack for the request 256 requests ago is indistinguishable from a current one (protocol, not code)",
+        "T4 Nak for LCP Magic-Number / IPv6CP Interface-Identifier: the theorem states order and types; that the Nak'd option "
+        "was offending (zero or equal to our current value) is checked by the monitor on every trace, proved only for IPCP",
+    ],
+    "modelled": ["pkg/pppoe/protocol.go ParseLCPPacket, ParseLCPOptions, SerializeLCPOptions, LCPPacket.Serialize",
+                 "pkg/pppoe/lcp.go, ipcp.go, ipv6cp.go: New*, Up, Down, Open, Close, closeInternal, ReceivePacket and every receive*/send* "
+                 "handler, processConfigureOptions, timeout, start/stopTimer (as tokens), SendEchoRequest"],
+}
+
+MANIFEST = {
+    "text": "One Rocq transition function models the RFC 1661 automaton as it is coded three times (LCP, IPCP, IPv6CP), on raw "
+            "received bytes, with restart counter, identifiers, explicit timer tokens (regular and stale expiry) and the three "
+            "option processors. Proved for every option processor, configuration and event sequence: Opened implies mutual "
+            "acknowledgement of the latest requests (stale expiries included, after fix 9b2a861/8c383e7); every renegotiation/"
+            "terminate/down event leaves Opened; every reply echoes the request identifier; an Ack repeats the options, a Reject "
+            "lists only unacceptable options of the request, a Nak only its option types (IPCP: only offending ones); IPCP acks "
+            "only the assigned address when one is assigned (refuted without: known finding K11c); Open+Up then silence sends "
+            "exactly max(count,1) requests and stops; silence in any state terminates under the guard 'restart timer running' "
+            "and is refuted without it (known finding K11b), with a theorem that only five receive handlers can lose the guard. "
+            "Every run drives the real state machines (timer expiry through a verif hook, crypto/rand scripted) over a "
+            "breadth-first exploration of their abstract state graph plus random and silent-peer sequences and compares packets, "
+            "state, counters, identifiers and timer flag with the Model inside Coq; a trace monitor of the property judges the "
+            "implementation's traces.",
+    "note": "Theorems are about the hand-written Model; the tie to pkg/pppoe is the differential run (sampled / abstract-graph "
+            "exhaustive in the thorough tier). Goroutine scheduling of time.AfterFunc is represented by EFire tokens, not executed. "
+            "IPPool allocation, negotiated peer options and CHAP/PAP are outside this Model.",
+    "technique": "Rocq proof (case analysis over the automaton, induction over event lists and over the restart counter) + "
+                 "differential correspondence on raw packets with vm_compute evaluation of the Model and a trace monitor",
+    "design_ref": "DESIGN.md §8 C11",
 }
